@@ -371,13 +371,15 @@ pub struct Model {
     pub null_base: bool,
     /// effective address of the crashing instruction's memory operand when it is not simply [rsp]
     pub effective_address: Option<u64>,
+    /// with `deep`: (first return address, stride) instead of addresses in the application module
+    pub deep_ra: Option<(u64, u64)>,
 }
 pub const HEADER_TIME: u64 = 1262805309; // fixed by minidump-synth
 pub const STACK_BASE: u64 = 0x7000_0000;
 
 impl Model {
     pub fn new(cpu: CpuK, platform_id: u32) -> Model {
-        Model { cpu, platform_id, threads: vec![], thread_names: vec![], exc: None, bp: None, modules: vec![], unloaded: vec![], maps: MapsM::None, misc: None, status: None, lsb: None, code: None, syms: vec![], gpr_fill: None, deep: None, rbx: None, null_base: false, effective_address: None }
+        Model { cpu, platform_id, threads: vec![], thread_names: vec![], exc: None, bp: None, modules: vec![], unloaded: vec![], maps: MapsM::None, misc: None, status: None, lsb: None, code: None, syms: vec![], gpr_fill: None, deep: None, rbx: None, null_base: false, effective_address: None, deep_ra: None }
     }
     pub fn os(&self) -> OsK {
         os_of(self.platform_id)
@@ -467,7 +469,10 @@ pub fn build(m: &Model) -> Vec<u8> {
                 let mut sec = Section::with_endian(e);
                 for k in 0..n as u64 {
                     let next = if k + 1 < n as u64 { base + 2 * w * (k + 1) } else { 0 };
-                    let ra = APP_BASE + 0x100 + (k % 0x800) * 8;
+                    let ra = match m.deep_ra {
+                        Some((first, stride)) => first + stride * k,
+                        None => APP_BASE + 0x100 + (k % 0x800) * 8,
+                    };
                     sec = if w == 4 { sec.D32(next as u32).D32(ra as u32) } else { sec.D64(next).D64(ra) };
                 }
                 sec = sec.append_repeated(0, 4 * w as usize);
@@ -1045,6 +1050,28 @@ pub fn gen_null_base(_tier: Tier) -> Gen {
         m
     };
     Gen { name: "null-base", len, model: Arc::new(model) }
+}
+
+/// One thread whose frame-pointer chain returns through addresses that lie in no LOADED module but in several
+/// overlapping unloaded ones: every frame has its own set of unloaded modules and offsets.
+pub fn gen_unloaded_frames(_tier: Tier) -> Gen {
+    use md::PlatformId as P;
+    let radices = vec![3u64, 3, 4];
+    let len = crate::core::product(&radices);
+    let model = move |idx: u64| {
+        let d = crate::core::unrank(idx, &radices);
+        let cpu = [CpuK::X86, CpuK::Amd64, CpuK::Arm64][d[0] as usize];
+        let mut m = Model::new(cpu, [P::VER_PLATFORM_WIN32_NT as u32, P::Linux as u32, P::MacOs as u32][d[1] as usize]);
+        add_threads(&mut m, &[1], 0);
+        m.threads[0].ip = 0x5000_0010;
+        m.modules.push(app_module());
+        let um = |b: u64, s: u32, n: &str| ModM { base: b, size: s, name: n.into() };
+        m.unloaded = vec![um(0x5000_0000, 0x10000, "old.dll"), um(0x5000_0800, 0x1000, "old.dll"), um(0x5000_1000, 0x10, "other.dll"), um(0x5000_1001, 0x800, "miss.dll"), um(0x5000_0000, 0x1000, "below.dll"), um(0x5000_2000, 0x3000, "late.dll")];
+        m.deep = Some(5);
+        m.deep_ra = Some((0x5000_0100, [0x7ff, 0x1003, 0x2a1, 0x3001][d[2] as usize]));
+        m
+    };
+    Gen { name: "unloaded-frames", len, model: Arc::new(model) }
 }
 
 pub const TID_PATTERNS: [&[u32]; 7] = [&[], &[1], &[1, 2], &[2, 2], &[1, 2, 7], &[5, 1, 5], &[1, 2, 2, 7]];
